@@ -145,6 +145,18 @@ pub fn accepted(rng: &mut Rng, o: &Opts) -> (B, Vec<u8>) {
         B::sorted(d)
       })
       .collect();
+    let mut files: Vec<B> = files;
+    // torrents in the wild repeat a path, or list a path that is also a directory of another entry
+    if !files.is_empty() && rng.chance(1, 5) {
+      let i = rng.below(files.len() as u64) as usize;
+      let dup = files[i].clone();
+      let at = rng.below(files.len() as u64 + 1) as usize;
+      files.insert(at, dup);
+    }
+    if rng.chance(1, 8) {
+      files.push(B::sorted(vec![(b"length".to_vec(), B::Int(1)), (b"path".to_vec(), B::List(vec![B::s("dir")]))]));
+      files.push(B::sorted(vec![(b"length".to_vec(), B::Int(2)), (b"path".to_vec(), B::List(vec![B::s("dir"), B::s("inner")]))]));
+    }
     info.push((b"files".to_vec(), B::List(files)));
   }
   if rng.chance(1, 3) {
